@@ -44,7 +44,9 @@ class ExprMixin:
         if isinstance(v, (VPoint, VStmt, VClosure, VFunc, VEnum, VClass, VExc)):
             if isinstance(v, VEnum): return z3.BoolVal(True)   # str-enums with non-empty values
             return T
-        if isinstance(v, (VTuple, VList)): return z3.BoolVal(len(v.items) > 0)
+        if isinstance(v, (VTuple, VList)):
+            if any(isinstance(i, tuple) for i in v.items): return OR(*[(i[1] if isinstance(i, tuple) else T) for i in v.items])
+            return z3.BoolVal(len(v.items) > 0)
         if isinstance(v, VDict): return OR(*v.present.values())
         if isinstance(v, VRef):
             if st is not None and "$d" in st.heap.get(v.oid, {}): return self.truth(st.heap[v.oid]["$d"])
@@ -90,7 +92,8 @@ class ExprMixin:
     def bytes_const(self, v):
         h = self.ext.get("bytes_const")
         if h: return h(self, v)
-        raise Unsupported("bytes constant")
+        r = VStr(v.decode("latin-1")); r.is_bytes = True       # A-str: bytes are sequences of code units
+        return r
 
     def e_Name(self, n, st):
         if n.id in st.env: return st.env[n.id]
@@ -515,6 +518,14 @@ class ExprMixin:
         if isinstance(base, VPoint):
             if lo is None and chi == 3: return base
             return VTuple(base.items()[clo:chi])
+        if isinstance(base, VRef) and "$l" in st.heap.get(base.oid, {}) and any(isinstance(i, tuple) for i in st.heap[base.oid]["$l"].items):
+            if not (lo is None and chi == -1): raise Unsupported("only [:-1] is supported on a list with guarded elements")
+            g = [(i[1], i[2]) if isinstance(i, tuple) else (T, i) for i in st.heap[base.oid]["$l"].items]
+            out = []
+            for k, (p, v) in enumerate(g):
+                later = OR(*[q for q, _ in g[k + 1:]])
+                out.append(("$g", simp(AND(p, later)), v))           # present and not the last present one
+            return st.alloc("list", {"$l": VList(out)})
         if isinstance(base, VRef) and "$l" in st.heap.get(base.oid, {}):
             if (lo is None or clo is not None) and (hi is None or chi is not None):
                 return st.alloc("list", {"$l": VList(st.heap[base.oid]["$l"].items[clo:chi])})
@@ -522,9 +533,15 @@ class ExprMixin:
             return type(base)(base.items[clo:chi])
         if isinstance(base, VStr):
             if base.py is not None and (lo is None or clo is not None) and (hi is None or chi is not None): return VStr(base.py[clo:chi])
-            if (lo is None or clo is not None and clo >= 0) and (hi is None):
-                s = base.z(); k = clo or 0
-                return VStr(None, z3.SubString(s, k, z3.Length(s) - k))
+            s = base.z(); L = z3.Length(s)
+            def bound(v, c, default):
+                """python slice bound -> z3 Int clamped to [0, len] (negative = from the end)"""
+                if v is None: return default
+                t = z3.IntVal(c) if c is not None else z3.ToInt(self.as_num(st, v, n).val)
+                t = z3.If(t < 0, t + L, t)
+                return z3.If(t < 0, z3.IntVal(0), z3.If(t > L, L, t))
+            a, b = bound(lo, clo, z3.IntVal(0)), bound(hi, chi, L)
+            return VStr(None, simp(z3.SubString(s, a, z3.If(b - a < 0, z3.IntVal(0), b - a))))
         if isinstance(base, VOpaque):
             return self.opaque_op("Slice", [base, lo, hi], st, n)
         raise Unsupported(f"slice of {type(base).__name__} @ {self.where(n)}")
@@ -543,6 +560,14 @@ class ExprMixin:
                 h = self.contracts.get((base.cls, "__getitem__"))
                 if h: return h(self, base, [idx], {}, st)
         if isinstance(base, VDict): return self.dict_getitem(base, idx, st, n)
+        if isinstance(base, VList) and any(isinstance(i, tuple) for i in base.items):
+            ci = self.concrete(idx)
+            if ci != -1: raise Unsupported("only [-1] is supported on a list with guarded elements")
+            g = [(i[1], i[2]) if isinstance(i, tuple) else (T, i) for i in base.items]
+            self.raise_if(st, NOT(OR(*[p for p, _ in g])), "IndexError", n)
+            res = g[0][1]
+            for p, v in g[1:]: res = merge(simp(p), v, res)       # the last present element
+            return res
         if isinstance(base, (VTuple, VList)):
             ci = self.concrete(idx)
             if ci is None: raise Unsupported(f"symbolic index @ {self.where(n)}")
